@@ -341,14 +341,26 @@ def main(argv):
         seed = c.rng.randrange(1, 2 ** 62)
         ent = "16" if s % 2 == 0 else "12"
         big.append("T %s %d %d %d %d" % (ent, seed, nkeys, 22, c.rng.choice([0, 2, 5])))
+    # HugeRealloc's failure paths: refuse exactly the k-th mremap of the run (EINVAL, as for huge pages): the
+    # ReplaceAndCopy fallback must keep every old byte.  The table is mmap-backed from 2 MiB on, so k = 1.. are the
+    # growth steps 2 -> 4 -> 8 MiB ...
+    for k in (1, 2, 3):
+        big.append("T 16 %d %d %d %d %d 0" % (c.rng.randrange(1, 2 ** 62), nkeys, 22, c.rng.choice([0, 2]), k))
+    # a NON-default empty marker (~0, as probing_hash_table_test uses): Clear() in the constructor, clear_new = true in
+    # Double on malloc'd and on mmap'd memory, key 0 an ordinary key; with and without a refused mremap
+    for k in (0, 1):
+        big.append("T 16 %d %d %d %d %d max" % (c.rng.randrange(1, 2 ** 62), nkeys, 22, c.rng.choice([0, 2]), k))
     # one giant cluster (all keys share the low bits of every table size): quadratic, so kept small
     big.append("T 16 %d %d %d %d" % (c.rng.randrange(1, 2 ** 62), 4000 if c.tier == "quick" else 20000, 22, 24))
     if c.violations:
         big = []          # a failing input is already in hand; the large runs could only hang on the same defect
     # the clean run needs a few seconds: a hang is reported right away as the violation
-    big_out = run_lines_robust(impl, big, timeout=45 if c.tier == "quick" else 400, per_line_timeout=20 if c.tier == "quick" else 150, max_failures=1)
+    big_out = run_lines_robust(impl, big, timeout=90 if c.tier == "quick" else 400, per_line_timeout=30 if c.tier == "quick" else 150, max_failures=1)
     for l, o in zip(big, big_out):
-        c.count(l, bucket="large/std::map-reference %s ops" % l.split()[3])
+        f = l.split()
+        c.count(l, bucket="large/std::map-reference %s ops%s%s" % (f[3], " +mremap-refused" if len(f) == 8 and f[6] != "0" else "", " +marker~0" if len(f) == 8 and f[7] == "max" else ""))
+        if o.startswith("OK") and len(f) == 8 and f[6] != "0" and "refused=1" not in o and int(f[6]) <= 2:
+            c.broken.append("mremap refusal #%s was not exercised by %r: %s" % (f[6], l, o))
         if o == "SKIPPED":
             continue
         if not o.startswith("OK"):
